@@ -23,6 +23,9 @@ def build(base, r):
 
 
 def target_of(kind, src, out, alt=False):
+    if alt == "spelling":
+        # the same referent, another TEXT (a trailing slash): the destination link must carry the new text
+        return target_of(kind, src, out) + "/"
     return {"rel": "t2.txt" if alt else "t1.txt", "abs_src": src + ("/t2.txt" if alt else "/t1.txt"), "abs_out": out + "/o.txt",
             "dangling": "nowhere2" if alt else "nowhere", "dirlink": "d2" if alt else "d", "chain": "rel_helper",
             "abs_dir_src": src + ("/d2" if alt else "/d"), "abs_dir_out": out + ("/sub" if alt else "")}[kind]
@@ -193,6 +196,8 @@ def run(tier, seed, pid=PID):
             wrote_outside = False
             for k in range(nruns):
                 alt = (k == nruns - 1 and nruns > 1 and r.random() < 0.5)
+                if alt and r.random() < 0.35:
+                    alt = "spelling"
                 if os.path.lexists(lpath):
                     if os.path.isdir(lpath) and not os.path.islink(lpath):
                         shutil.rmtree(lpath)
